@@ -809,6 +809,7 @@ def compare(psrc, qsrc, opts, ptree=None, qtree=None):
     res.pmodel, res.qmodel = pm_, qm_
     res.unsupported = pm_.unsupported
     res.ptree_n, res.qtree_n = pn, qn
+    res.future_annotations = any(isinstance(st, ast.ImportFrom) and st.module == '__future__' and any(a.name == 'annotations' for a in st.names) for st in pn.body)
     if res.diffs:
         return res      # structure differs: the pairing is not meaningful beyond this point
     # ---- aliases introduced in Q
@@ -879,6 +880,9 @@ def compare(psrc, qsrc, opts, ptree=None, qtree=None):
     # ---- hoisted literal uses
     for value, qkey, path in rep.const_alias_uses:
         qo = qm_.occ.get(qkey)
+        if qo is None and qm_.scopes and getattr(res, 'future_annotations', False):
+            res.rules['literal-in-unevaluated-annotation'] = res.rules.get('literal-in-unevaluated-annotation', 0) + 1
+            continue        # inside an annotation under `from __future__ import annotations`: never evaluated, not a reference
         if qo is None or not qo.binding or qo.binding[0] != 'b' or (qo.binding[1], qo.binding[2]) not in const_alias:
             res.problems.append({'kind': 'literal-replaced-by-non-alias', 'detail': '%s: literal %r replaced by name %s which is not an introduced constant alias visible there (resolves to %r)' % (
                 path, value, getattr(qo, 'raw', '?'), getattr(qo, 'binding', None))})
